@@ -274,6 +274,12 @@ func runMaintPassCase(seed uint64, k, idx int) {
 			s.VerifFailQuestionablePing(dht.NewAddr(n.addr), n.id)
 		}
 	}
+	// every fourth case: the application bootstrapped a moment ago (nobody answers find_node during the set-up), so the
+	// maintainer must go straight to its pass
+	booted := k%4 == 3
+	if booted {
+		s.Bootstrap()
+	}
 	// let the reply handlers of the setup pings finish
 	for dl := time.Now().Add(3 * time.Second); len(s.VerifPending()) > 0 && time.Now().Before(dl); {
 		time.Sleep(time.Millisecond)
@@ -453,7 +459,7 @@ func runMaintPassCase(seed uint64, k, idx int) {
 		at = strings.Join(atoks, ",")
 	}
 	if ended {
-		emit("mpass %d root=%s nosec=1 nodes=%s answers=%s fanswers=%s => boot:%s %s after:%s", idx, hx(root[:]), nt, at, ft, mpSetTok(boot), strings.Join(toks, " "), afterTok)
+		emit("mpass %d root=%s nosec=1 booted=%d nodes=%s answers=%s fanswers=%s => boot:%s %s after:%s", idx, hx(root[:]), b2i(booted), nt, at, ft, mpSetTok(boot), strings.Join(toks, " "), afterTok)
 	}
 	emit("# mpass %d depth=%d nodes=%d datagrams=%d ended=%v", idx, depth, len(nodes), len(log2), ended)
 	s.Close()
